@@ -71,8 +71,11 @@ class Pair(object):
         sim.add_link(link)
         self.c = sim.endpoint(names[0], link.csock, cnode)
         self.s = sim.endpoint(names[1], link.ssock, snode)
-        self.cset = make_settings(scen.get("cset"))
-        self.sset = make_settings(scen.get("sset"))
+        # (an application usually builds its settings once and passes the
+        # same object to every connection: `settings_objs` = (cset, sset))
+        shared = getattr(sim, "settings_objs", None)
+        self.cset = shared[0] if shared else make_settings(scen.get("cset"))
+        self.sset = shared[1] if shared else make_settings(scen.get("sset"))
         if scen.get("close_socket") is False:
             # the application keeps ownership of the sockets: close() then
             # waits for the peer's close_notify
